@@ -58,12 +58,16 @@ Definition cor_cubic (h : Q) : Q :=
   Qmax 0 (if qltb h 1 then 1 - h2 * (7 + h * (-(35#4) + h2 * ((7#2) - (3#4) * h2))) else 0).
 (* CovTriangle.cpp:41 *)
 Definition cor_triangle (h : Q) : Q := Qmax 0 (1 - h).
-(* CovReg1D.cpp:47 and, verbatim, CovPenta.cpp:41 *)
+(* CovReg1D.cpp:47 (support 2, scadef 2) *)
 Definition cor_reg1d (h : Q) : Q :=
   if qltb h 1 then 1 - 3 * h * (1 - h / 2 * (1 + h / 6))
   else if qltb h 2 then -(2) + 3 * h * (1 - h / 2 * (1 - h / 6))
   else 0.
-Definition cor_penta (h : Q) : Q := cor_reg1d h.
+(* CovPenta.cpp:41  pentaspherical model 1 - 15/8 h + 5/4 h^3 - 3/8 h^5
+   (until fix C03_1 this body was, verbatim, the one of CovReg1D: see the regression example in Witness.v) *)
+Definition cor_penta (h : Q) : Q :=
+  let h2 := h * h in
+  if qltb h 1 then 1 - h * ((15#8) - h2 * ((5#4) - (3#8) * h2)) else 0.
 (* CovWendland0.cpp:41, CovWendland1.cpp:41, CovWendland2.cpp:41 *)
 Definition cor_wendland0 (h : Q) : Q := if qltb h 1 then 1 - 2 * h + h * h else 0.
 Definition cor_wendland1 (h : Q) : Q :=
